@@ -521,3 +521,85 @@ def _is_unit_sign(s):
         if one2 and sg2 and cz2:
             return True
     return None
+
+
+# --------------------------------------------------------------------------- prior factories: base scale and SDE assembly
+def factory_rules(chk, S):
+    """'Process noise scales linearly with the base output scale' and the companion form of the exponential priors, at the factories.
+
+    R-C09-4 shows that a transition multiplies the stored factor Q (dense) / q_sqrtm * output_scale (isotropic, block-diagonal) / the dispersion B
+    (exponential) by sqrt|dt| and the calibrated scale; here: what the factories store is *linear* in the user's base scale -- the processed scale
+    itself, once -- and the drift / dispersion of  d(u, u', ..., u^(q)) = A (.) dt + B dW  have the companion structure: ones on the first block
+    super-diagonal, the Jacobian of the user's vector field in the LAST d rows, noise entering the LAST coefficient only."""
+    from ..harness import PROBLEMS, Rec
+
+    r8 = chk.rule("R-C09-8", "prior factories: the stored noise factor is linear in the processed base scale (Q = kron(q, Lambda), B = kron(e_last, Lambda), output_scale stored unchanged); "
+                  "exponential priors in companion form (shift on the first block super-diagonal, drift Jacobian in the last d rows, dispersion on the last coefficient)", floor=8)
+    sq = T.atom("a_1d"), T.atom("q_1d")
+    for mod, cls, fam in ((DENSE, "state_space_model_dense", "dense"), (ISO, "state_space_model_isotropic", "isotropic"), (BLOCK, "state_space_model_blockdiag", "blockdiag")):
+        for ctor in ("prior_wiener_integrated_diffuse", "prior_exponential_diffuse"):
+            if fam != "dense" and ctor.startswith("prior_exp"):
+                continue  # documented as not implemented (C20 / C14 check the NotImplementedError)
+            it = S.interp()
+            it.method_hooks[UTIL + ".system_matrices_1d_iwp"] = lambda itp, fn, a, kw, site: sq
+            lam = T.atom("LAMBDA")
+            if fam == "dense":
+                it.method_hooks[f"{mod}.{cls}._process_base_scale"] = lambda itp, fn, a, kw, site, lam=lam: lam
+            mean = [T.atom(f"m{i}", array=True) for i in range(3)]
+            std = [T.atom(f"s{i}", array=True) for i in range(3)]
+            osc = T.atom("oscale", array=True)
+            name = f"{cls}.{ctor}"
+            try:
+                ssm = it.instantiate(it.class_value(f"{mod}.{cls}"), [], {}, "<harness>")
+                if ctor.startswith("prior_exp"):
+                    ode = it.instantiate(it.class_value(PROBLEMS + ".JetOdeAutonomous"), [A("auto")], dict(jacobian=A("jac"), num_tcoeffs_in_args=3, tcoeff_indices_output=[3]), "<harness>")
+                    prior = call(it, method(it, ssm, ctor), ode, mean, std, output_scale=osc)
+                else:
+                    prior = call(it, method(it, ssm, ctor), mean, std, output_scale=osc)
+            except (AnalysisError, RaiseSignal) as e:
+                r8.unknown(name, f"not analysed: {e}", mod)
+                continue
+            S.absorb(it)
+            if not isinstance(prior, Rec):
+                r8.unknown(name, f"returns {T.show(prior, 2)}", mod)
+                continue
+            f = prior.fields
+            d_ = m_("getitem", (m_("attr", (m_("tree.ravel", (mean[0],)), "shape")), 0))
+            eye_d = m_("np.eye", (d_,))
+            if fam == "dense":
+                r8.require(f.get("output_scale") is lam, f"{name} base scale", "the processed base scale Lambda is stored once", f"output_scale = {T.show(f.get('output_scale'), 3)}", mod)
+                if ctor.startswith("prior_wiener"):
+                    r8.require(f.get("Q") is m_("np.kron", (sq[1], lam)), f"{name} noise factor", "Q = kron(q_1d, Lambda): linear in the base scale, coefficient-major", f"Q = {T.show(f.get('Q'), 4)}", mod)
+                    r8.require(f.get("A") is m_("np.kron", (sq[0], eye_d)), f"{name} transition", "A = kron(a_1d, I_d)", f"A = {T.show(f.get('A'), 4)}", mod)
+                else:
+                    b = f.get("B")
+                    e_last = None
+                    if isinstance(b, T.Term) and b.op == "np.kron" and len(b.args) == 2 and b.args[1] is lam:
+                        e_last = b.args[0]
+                    okb = False
+                    if isinstance(e_last, T.Term) and e_last.op == "getitem" and _idx_kind(e_last.args[1]) == "rows":
+                        row = e_last.args[0]
+                        okb = isinstance(row, T.Term) and row.op == "getitem" and row.args[1] == -1 and isinstance(row.args[0], T.Term) and row.args[0].op == "np.eye" and nf.norm(row.args[0].args[0]) == nf.const(3) and len(row.args[0].args) == 1
+                    r8.require(okb, f"{name} dispersion", "B = kron(e_last[:, None], Lambda): the noise enters the highest coefficient, linear in the base scale", f"B = {T.show(b, 5)}", mod)
+                    a = f.get("A")
+                    st = _at_set(a)
+                    oka = False
+                    deta = T.show(a, 5)
+                    if st is not None:
+                        base, where_, val = st
+                        shift = base.args[0] if isinstance(base, T.Term) and base.op == "np.kron" and len(base.args) == 2 and base.args[1] is eye_d else None
+                        oks = isinstance(shift, T.Term) and shift.op == "linalg.diagonal_matrix" and shift.kwargs.get("k", shift.args[1] if len(shift.args) > 1 else 0) == 1 \
+                            and isinstance(shift.args[0], T.Term) and shift.args[0].op == "np.ones" and shift.args[0].args[0] == (2,)
+                        rows = where_[0] if isinstance(where_, tuple) and len(where_) == 2 and _is_full(where_[1]) else None
+                        lo = rows.start if isinstance(rows, slice) else (rows.args[0] if isinstance(rows, T.Term) and rows.op == "slice" else None)
+                        hi = rows.stop if isinstance(rows, slice) else (rows.args[1] if isinstance(rows, T.Term) and rows.op == "slice" and len(rows.args) > 1 else None)
+                        okr = lo is not None and hi is None and nf.norm(lo) == nf.norm(m_("neg", (d_,)))
+                        okv = isinstance(val, T.Term) and val.op == "jac_apply"
+                        oka = bool(oks and okr and okv)
+                        deta = f"shift {T.show(shift, 3)}, rows {T.show(rows, 3)}, block {T.show(val, 2)}"
+                    r8.require(oka, f"{name} drift", "A = kron(diag(ones(q), k=1), I_d) with the Jacobian of the vector field written into the last d rows", f"A: {deta}", mod)
+            else:
+                want = osc if fam == "isotropic" else m_("tree.ravel", (osc,))
+                r8.require(f.get("output_scale") is want, f"{name} base scale", "the user's base scale is stored unchanged (flattened per dimension in the block-diagonal model)", f"output_scale = {T.show(f.get('output_scale'), 3)}", mod)
+                r8.require(f.get("q_sqrtm") is sq[1], f"{name} noise factor", "q_sqrtm = the 1-d factor of system_matrices_1d_iwp", f"q_sqrtm = {T.show(f.get('q_sqrtm'), 3)}", mod)
+                r8.require((f.get("A") if "A" in f else f.get("a")) is sq[0], f"{name} transition", "the 1-d transition of system_matrices_1d_iwp", f"{T.show(f.get('A') if 'A' in f else f.get('a'), 3)}", mod)
